@@ -302,6 +302,19 @@ def run(rep, tier="quick", replay=None, evidence_dir=None, collect_only=False):
     import c05_more
     c05_more.run(prog, rep, rset, rkeys, rf, cl, lg, guards)
 
+    # R6: once a container read failed the iterators stop - reading on from the half-updated block state is what panics
+    # (slice start beyond the refilled buffer) or repeats the same error for ever (C14.R3 instances)
+    rep.rule("C05.R6", "the container iterators stop after the first error: no further read from half-updated block state (C14.R3 instances)")
+    import c14
+    sub14 = common.Report("C14", tier, 0)
+    c14.rule_r3(prog, sub14)
+    n6 = 0
+    for o in sub14.obligations:
+        if o["rule"] == "C14.R3":
+            n6 += 1
+            rep.ob("C05.R6", "[C14.R3] " + o["instance"], o["ok"], o["detail"] + "; polling the iterator again re-enters the block reader with a stale index / count: index panic or an endless stream of the same error", o["loc"])
+    rep.floor("C05.R6", "imported latch obligations", n6, 4)
+
     if collect_only:
         return rep
     rep.not_decided = ["absence of all panics (serde_json, uuid, num-bigint, regex-lite and the codec crates are trusted)",
